@@ -1,7 +1,5 @@
 import logging
 
-import numpy as np
-
 from ..data import Data
 from ..decorators import (
     _display_or_return,
@@ -339,22 +337,22 @@ class PropertiesData(Properties):
                 x = v.get_property(prop, None)
                 if x is not None:
                     # Note: 'missing_value' may be a vector
-                    fill_values.extend(np.ravel(x))
+                    fill_values.append(x)
 
-            kwargs = {"inplace": True, "fill_values": fill_values}
+            # The property values are used as the netCDF attributes
+            # of the same names are when a variable is read from a
+            # dataset (safe casting to the data type of the data;
+            # 'valid_range' in preference to 'valid_min' and
+            # 'valid_max'), so that the mask defined in a dataset is
+            # recreated
+            kwargs = {
+                "inplace": True,
+                "fill_values": fill_values,
+                "safe_cast": True,
+            }
 
             for prop in ("valid_min", "valid_max", "valid_range"):
                 kwargs[prop] = v.get_property(prop, None)
-
-            if kwargs["valid_range"] is not None and (
-                kwargs["valid_min"] is not None
-                or kwargs["valid_max"] is not None
-            ):
-                raise ValueError(
-                    "Can't apply masking when the 'valid_range' property "
-                    "has been set as well as either of the "
-                    "'valid_min' or 'valid_max' properties"
-                )
 
             data.apply_masking(**kwargs)
 
